@@ -188,6 +188,12 @@ struct C06 : Prop {
 		sim::lockset_arm(false); sim::lockset_reset_counters();
 		g_lock_log = &lock_log;
 		sim::hooks().on_lock = lock_hook;
+		bringup_probe_sent = false; bringup_probes_checked = 0;
+		e.bus.on_request = nullptr;
+		if (!debug) e.bus.on_request = [this, &e](bus::Node &n, const ref::Msg &m) {
+			if (!bringup_probe_sent && m.type == MSG_SYS_ENABLE && n.addr.empty() && e.cur_session > 0) { bringup_probe_sent = true; e.bus.emit(0, MSG_NODE_NA, {0x77}, {}, 2000, 0); }
+			return false;
+		};
 		e.bus.on_delivered = [this](bus::UpFrame &f) {
 			if (!modelling || f.corrupted) return;
 			for (auto &m : f.msgs) {
@@ -199,7 +205,7 @@ struct C06 : Prop {
 			}
 		};
 	}
-	int64_t base_live = -1; uint64_t unread_at_stop = 0, stop_heap_checks = 0;
+	int64_t base_live = -1; uint64_t unread_at_stop = 0, stop_heap_checks = 0, bringup_probes_checked = 0; bool bringup_probe_sent = false;
 	static bool is_warm(Engine &e, int s) { return e.plan["sessions"][(size_t) s].getb("warm"); }
 	void on_session_stop(Engine &e, int s) override {
 		if (is_warm(e, s)) { base_live = sim::lib_live_bytes(); return; }
@@ -213,6 +219,13 @@ struct C06 : Prop {
 	}
 	void on_session_start(Engine &e, int s, int ret) override {
 		if (is_warm(e, s)) return;
+		// normal mode: a report that arrived while the start-up dialogue was still going on (right after SYS_ENABLE reached the bus) must be waiting in its queue
+		if (!debug && ret == 0 && bringup_probe_sent) {
+			bool found = false;
+			for (int k = 0; k < 300; k++) { sim::ApiScope api("bidib_read_error_message"); uint8_t *m = bidib_read_error_message(); if (!m) break; size_t len = (size_t) m[0] + 1; for (size_t q = 0; q + 1 < len; q++) if (m[q] == MSG_NODE_NA && m[q + 1] == 0x77) found = true; free(m); }
+			bringup_probes_checked++;
+			if (!found) e.violate("REPORT_DURING_BRINGUP_LOST", "error queue", "MSG_NODE_NA(0x77) from the interface arrived while the start-up dialogue was going on (right after MSG_SYS_ENABLE reached the bus); after bidib_start returned it is in no queue");
+		}
 		sim::lockset_arm(ret == 0);
 		const auto &names = sim::lock_names();
 		static const char *qn[3] = {"bidib_uplink_queue_mutex", "bidib_uplink_error_queue_mutex", "bidib_uplink_intern_queue_mutex"};
@@ -283,7 +296,7 @@ struct C06 : Prop {
 		p.set("glib_container_lockset_checks", (long long) sim::lockset_checks());
 		p.set("overflow_drops", (long long) overflows); p.set("pops_checked", (long long) pops); p.set("runs_with_concurrent_pops", (long long) conc);
 		p.set("to_state", (long long) dest_count[0]); p.set("to_message_queue", (long long) dest_count[1]); p.set("to_error_queue", (long long) dest_count[2]); p.set("to_intern_queue", (long long) dest_count[3]);
-		p.set("heap_level_checks_after_stop", (long long) stop_heap_checks); p.set("messages_still_queued_at_stop", (long long) unread_at_stop);
+		p.set("heap_level_checks_after_stop", (long long) stop_heap_checks); p.set("reports_during_bringup_checked", (long long) bringup_probes_checked); p.set("messages_still_queued_at_stop", (long long) unread_at_stop);
 		p.set("normal_mode_runs", debug ? 0 : 1); p.set("debug_mode_runs", debug ? 1 : 0);
 		f.set("probes", p);
 	}
